@@ -12,6 +12,7 @@ CONSTANTS
   AgeWin = 10
   MAXV = 1000000000
   PragueFrom = %(prague)d
+  Base = %(base)d
   Senders = {%(senders)s}
   Signers = {%(signers)s}
   MaxLen = %(maxlen)d
@@ -21,13 +22,13 @@ CHECK_DEADLOCK FALSE
 """
 
 
-def gen_schedules(name, focus, n, seed, maxlen=40, senders=2, signers=2, workers=4, prague=0):
+def gen_schedules(name, focus, n, seed, maxlen=40, senders=2, signers=2, workers=4, prague=0, base=0):
     """n schedules of `maxlen` calls from the reference machine by TLC simulation."""
     cfg = "_gen_%s.cfg" % name
     with open(os.path.join(SPEC, cfg), "w") as f:
         f.write(GEN_CONSTS % {"senders": ", ".join('"s%d"' % i for i in range(1, senders + 1)),
                               "signers": ", ".join('"k%d"' % i for i in range(1, signers + 1)),
-                              "maxlen": maxlen, "focus": focus, "prague": prague})
+                              "maxlen": maxlen, "focus": focus, "prague": prague, "base": base})
     raw = os.path.join(OUT, "gen_%s.txt" % name)
     per = (n + workers - 1) // workers
     r = common.tlc("GenRef.tla", cfg, "gen_" + name, workers=workers, timeout=300, simulate="num=%d" % per,
@@ -48,10 +49,13 @@ def gen_schedules(name, focus, n, seed, maxlen=40, senders=2, signers=2, workers
     return scheds, r
 
 
+BASE = [0]     # > 0: every run starts from BASE[0] mined and committed empty blocks (fork-crossing configurations)
+
+
 def write_schedules(path, scheds, first_run=1, light=False):
     with open(path, "w") as f:
         for i, steps in enumerate(scheds):
-            f.write(json.dumps({"run": first_run + i, "steps": steps, "light": light}) + "\n")
+            f.write(json.dumps({"run": first_run + i, "steps": steps, "light": light or BASE[0] > 0, "base": BASE[0]}) + "\n")
 
 
 def play(name, scheds, shards=8, net="regtest", traces="on", light=False, timeout=3600):
@@ -67,7 +71,7 @@ def play(name, scheds, shards=8, net="regtest", traces="on", light=False, timeou
         tp = os.path.join(OUT, "trace_%s_%d.ndjson" % (name, k))
         with open(sp, "w") as f:
             for run, steps in chunk:
-                f.write(json.dumps({"run": run, "steps": steps, "light": light}) + "\n")
+                f.write(json.dumps({"run": run, "steps": steps, "light": light or BASE[0] > 0, "base": BASE[0]}) + "\n")
         jobs.append((sp, tp))
 
     def one(job):
